@@ -15,6 +15,8 @@ deploy <now>               → decision / write / result / state lines, then `en
 detect <lastBuild|state> <t1,t2,…|->        → `detect 0|1`   (`state`: use the model's last_build_time)
 reset                      empty staging directory → `ok`
 drop cfg|table|prism|reverse <name>          artefact missing / unloadable → `ok`
+mark                       remember the staging directory (the state before a deployment that will be killed) → `ok`
+old cfg|table|prism|reverse|lastbuild <name>  crash state: the slot holds again what it held at `mark` → `ok`
 ```
 `<cfgid>` is `default` or `schema:<sid>`.  Anything else: `bad-op`.
 -/
@@ -33,6 +35,7 @@ structure Desc where
 structure DState where
   desc : Desc := {}
   arts : Arts DK := Arts.empty
+  marked : Arts DK := Arts.empty
   cfgNames : List CfgId := []
   tableNames : List String := []
   prismNames : List String := []
@@ -175,6 +178,22 @@ def step (st : DState) (line : String) : DState × List String :=
     | some lb, some ts => (st, ["detect " ++ (if detectModifications ts lb then "1" else "0")])
     | _, _ => (st, ["bad-op"])
   | ["reset"] => ({ st with arts := Arts.empty, cfgNames := [], tableNames := [], prismNames := [], reverseNames := [] }, ["ok"])
+  | ["mark"] => ({ st with marked := st.arts }, ["ok"])
+  | ["old", kind, name] =>
+    -- a crash state: this slot still holds what it held when `mark` was issued
+    if kind == "cfg" then
+      match parseCfgId name with
+      | some id => ({ st with arts := { st.arts with cfg := fun x => if x = id then st.marked.cfg x else st.arts.cfg x } }, ["ok"])
+      | none => (st, ["bad-op"])
+    else if kind == "table" then
+      ({ st with arts := { st.arts with table := fun x => if x = name then st.marked.table x else st.arts.table x } }, ["ok"])
+    else if kind == "prism" then
+      ({ st with arts := { st.arts with prism := fun x => if x = name then st.marked.prism x else st.arts.prism x } }, ["ok"])
+    else if kind == "reverse" then
+      ({ st with arts := { st.arts with reverse := fun x => if x = name then st.marked.reverse x else st.arts.reverse x } }, ["ok"])
+    else if kind == "lastbuild" then
+      ({ st with arts := { st.arts with lastBuild := st.marked.lastBuild } }, ["ok"])
+    else (st, ["bad-op"])
   | ["drop", kind, name] =>
     if kind == "cfg" then
       match parseCfgId name with
